@@ -13,6 +13,8 @@ A program is a list of nodes (JSON):
                                           bindings; `after` runs in the creator before deref
   ["boundfn", body]                       bound-fn run on a fresh thread, joined
   ["pmap", n, body]                       (doall (pmap (fn [i] body) (range n)))
+  ["latefut", pairs, body]                future created inside (with-bindings pairs ...) which the creator
+                                          LEAVES before the body starts (gated by a promise)
   ["bflocal", body, after]                bound-fn created, creator runs `after`, then calls it
                                           on the SAME thread: it must still see creation-time values
 
@@ -100,6 +102,11 @@ class Model:
             self.run(n[2], env, ctx)
             if err is not None:
                 raise ModelThrow("child")
+        elif t == "latefut":
+            # future created INSIDE a with-bindings form that the creator has LEFT before the body runs
+            child = [dict(self.flat(env + [{v: val for v, val in n[1]}]))]
+            cctx = {"kind": "conveyed", "failed": [False]}
+            self.run(n[2], child, cctx)
         elif t == "boundfn":
             child = [dict(self.flat(env))]
             cctx = {"kind": "conveyed", "failed": [False]}
@@ -179,6 +186,11 @@ def _emit(n):
         _ctr[0] += 1
         nm = f"fut_{_ctr[0]}"
         return f"(let [{nm} (future {emit(n[1])})] {emit(n[2])} (deref {nm}))"
+    if t == "latefut":
+        _ctr[0] += 1
+        nm = f"lf_{_ctr[0]}"
+        return (f"(let [gate_{nm} (promise) {nm} (with-bindings (hash-map {_pairs_text(n[1], None, True)}) "
+                f"(future (deref gate_{nm}) {emit(n[2])}))] (deliver gate_{nm} true) (deref {nm}))")
     if t == "boundfn":
         return f"(run-thread! (bound-fn [] {emit(n[1])}))"
     if t == "bflocal":
